@@ -112,32 +112,36 @@ def law_violation(vd, res, what):
     return path
 
 
-def collect_cases(results, limit=None, rng=None):
+def collect_cases(results, limit=None, rng=None, tier="quick"):
     """distinct cases of all TLC runs; over the limit the sample is STRATIFIED: every run (stratum) keeps a quota of
     limit / (2 * runs) of its own cases, the rest of the budget is drawn from all remaining cases (a small targeted
     stratum is not diluted by a large one)"""
     per_run = [relreplay.parse_cases(r.lines) for r in results]
-    seen, strata = set(), []
-    for cs in per_run:
+    tier_i = 0 if tier == "quick" else 1
+    seen, strata, own = set(), [], []
+    for r, cs in zip(results, per_run):
         mine = []
         for c in cs:
             h = relreplay.case_hash(c)
             if h not in seen:
                 seen.add(h)
                 mine.append(c)
-        strata.append(mine)
-    strata = [m for m in strata if m]
+        if mine:
+            strata.append(mine)
+            q = getattr(r, "quota", None)          # a stratum may ask for its own (larger) quota: (quick, thorough)
+            own.append(q[tier_i] if isinstance(q, (tuple, list)) else q)
     total = sum(len(m) for m in strata)
     if not limit or total <= limit:
         return [c for m in strata for c in m]
     rng = rng or random.Random(common.seed())
     quota = max(1, limit // (2 * max(1, len(strata))))
     chosen, rest = [], []
-    for m in strata:
+    for m, q in zip(strata, own):
         idx = list(range(len(m)))
         rng.shuffle(idx)
-        chosen.extend(m[i] for i in idx[:quota])
-        rest.extend(m[i] for i in idx[quota:])
+        k = max(quota, q or 0)
+        chosen.extend(m[i] for i in idx[:k])
+        rest.extend(m[i] for i in idx[k:])
     room = limit - len(chosen)
     if room > 0 and rest:
         chosen.extend(rng.sample(rest, min(room, len(rest))))
